@@ -15,6 +15,11 @@ type SchemaCache struct {
 	// being built, the cache is shared by all users of a codec.
 	mu       sync.Mutex
 	packages map[string]*Package
+
+	// building holds the refs registered since the current call to Schema
+	// began. When that call fails none of them can be relied on (they, or
+	// something they refer to, are incomplete), so they are removed again.
+	building []*RefSchema
 }
 
 func NewSchemaCache() *SchemaCache {
@@ -44,6 +49,7 @@ func (sc *SchemaCache) Schema(src protoreflect.MessageDescriptor) (RootSchema, e
 		Schema:  nameInPackage,
 	}
 	schemaPackage.Schemas[nameInPackage] = placeholder
+	sc.building = append(sc.building[:0], placeholder)
 
 	msgOptions := proto.GetExtension(src.Options(), ext_j5pb.E_Message).(*ext_j5pb.MessageOptions)
 	isOneofWrapper := isOneofWrapper(src, msgOptions)
@@ -54,12 +60,27 @@ func (sc *SchemaCache) Schema(src protoreflect.MessageDescriptor) (RootSchema, e
 		placeholder.To, err = schemaPackage.buildObjectSchema(src, msgOptions.GetObject())
 	}
 	if err != nil {
+		sc.dropBuilding()
 		return nil, err
 	}
 	if placeholder.To.FullName() != placeholder.FullName() {
+		sc.dropBuilding()
 		return nil, fmt.Errorf("schema %q has wrong name %q", placeholder.FullName(), placeholder.To.FullName())
 	}
+	sc.building = nil
 	return placeholder.To, nil
+}
+
+// dropBuilding removes the refs registered by a failed build, so that a later
+// call builds them again (and reports the error again) rather than finding a
+// ref which was never linked.
+func (sc *SchemaCache) dropBuilding() {
+	for _, ref := range sc.building {
+		if ref.Package.Schemas[ref.Schema] == ref {
+			delete(ref.Package.Schemas, ref.Schema)
+		}
+	}
+	sc.building = nil
 }
 
 func (sc *SchemaCache) refTo(pkg, schema string) (*RefSchema, bool) {
@@ -73,6 +94,7 @@ func (sc *SchemaCache) refTo(pkg, schema string) (*RefSchema, bool) {
 		Schema:  schema,
 	}
 	refPackage.Schemas[schema] = refSchema
+	sc.building = append(sc.building, refSchema)
 
 	return refSchema, false
 }
